@@ -133,3 +133,100 @@ def rule_X7(ctx, files=CODEC_FILES):
     res.assumptions.append('A-RANGE: Math::AngNormalize returns values in [-180, 180] with both ends attained; IEEE double '
                            'arithmetic (GEOGRAPHICLIB_PRECISION=2) for end-point computations')
     return res, nidx, proved
+
+
+# ------------------------------------------------------------------ X11: encoder fields vs decoder acceptance
+def _digit_loops(f, K):
+    """[(for node, buffer index node, alphabet q, value decl id, base)] for loops of the form
+    `for (...) { buf[pos] = ALPHA[v % B]; v /= B; }`."""
+    out = []
+    for i, n in f.all_nodes():
+        if n['k'] != 'ForStmt' or n.get('body', -1) < 0:
+            continue
+        body = set(f.walk(n['body']))
+        stores = []
+        shr = {}
+        for j in body:
+            jn = f.nodes[j]
+            if jn['k'] == 'BinaryOperator' and jn.get('op') == '=':
+                ln = f.nodes[f.strip(jn['ch'][0])]
+                rn = f.nodes[f.strip_casts(jn['ch'][1])]
+                while rn['k'] == 'ImplicitCastExpr' and rn['ch']:
+                    rn = f.nodes[f.strip_casts(rn['ch'][0])]
+                if ln['k'] == 'ArraySubscriptExpr' and rn['k'] == 'ArraySubscriptExpr':
+                    b = _array_bound(f, K, rn['ch'][0])
+                    ix = f.nodes[f.strip_casts(rn['ch'][1])]
+                    if b is not None and b[2] == 'alphabet' and ix['k'] == 'BinaryOperator' and ix.get('op') == '%':
+                        vn = f.nodes[f.strip_casts(ix['ch'][0])]
+                        bn = f.nodes[f.strip(ix['ch'][1])]
+                        an = f.nodes[f.strip_casts(rn['ch'][0])]
+                        while an['k'] == 'ImplicitCastExpr' and an['ch']:
+                            an = f.nodes[f.strip_casts(an['ch'][0])]
+                        if vn['k'] == 'DeclRefExpr' and 'cv' in bn and an.get('q'):
+                            stores.append((ln['ch'][1], an['q'], vn['d'], int(bn['cv']), vn.get('name')))
+            if jn['k'] == 'CompoundAssignOperator' and jn.get('op') == '/=':
+                vn = f.nodes[f.strip(jn['ch'][0])]
+                bn = f.nodes[f.strip(jn['ch'][1])]
+                if vn['k'] == 'DeclRefExpr' and 'cv' in bn:
+                    shr[vn['d']] = int(bn['cv'])
+        for posn, aq, vd, base, vname in stores:
+            if shr.get(vd) == base:
+                out.append((i, posn, aq, vd, base, vname))
+    return out
+
+
+def rule_X11(ctx, pairs):
+    """pairs: [(encoder q, decoder q)].  Must run after rule_X10 (uses the fields it recorded)."""
+    from . import decode
+    res = RuleResult('X11', 'writer/reader agreement of the grid codes: a numeric field the encoder emits digit by digit '
+                            '(`buf[pos] = ALPHA[v % B]; v /= B`) takes exactly the values the decoder accepts for the '
+                            'characters at those positions (encoder range by interval analysis with attainment, decoder '
+                            'range from the guards as clipped by the range interpreter)')
+    K = Consts(ctx.prog)
+    nfield = 0
+    for enc_q, dec_q in pairs:
+        fs = [f for f in ctx.lib_fns() if f.q == enc_q and f.cfg]
+        if not fs:
+            raise AnalysisBroken('X11: anchor vanished: ' + enc_q)
+        f = fs[0]
+        if not decode.FIELDS:
+            raise AnalysisBroken('X11: no decoder fields recorded (X10 must run first)')
+        dec_fields = decode.FIELDS.get(dec_q, {})
+        loops = _digit_loops(f, K)
+        if not loops:
+            continue
+        iv = Intervals(ctx, f)
+        for fornode, posn, aq, vd, base, vname in loops:
+            init = f.nodes[fornode].get('init', -1)
+            env = iv.env_at(init if init is not None and init >= 0 else fornode)
+            if env is None:
+                continue
+            v = env.get(vd)
+            penv = iv.env_at(posn)
+            if v is None or penv is None:
+                continue
+            pr = iv.ev(posn, penv)
+            if not (v.finite and pr.finite):
+                res.note('undecided: field %s of %s: range %r, positions %r' % (vname, enc_q, v, pr))
+                continue
+            key = (aq, int(pr.lo), int(pr.hi))
+            d = dec_fields.get(key)
+            if d is None:
+                res.note('no decoder field at %s positions %d..%d (%s)' % (aq.rsplit('::', 1)[-1], pr.lo, pr.hi, vname))
+                continue
+            nfield += 1
+            dlo, dhi, dname = d
+            bad = None
+            if v.hi > dhi and v.thi and not v.rel:
+                bad = 'the encoder emits %s up to %d, the decoder accepts at most %d' % (vname, v.hi, dhi)
+            elif v.lo < dlo and v.tlo and not v.rel:
+                bad = 'the encoder emits %s down to %d, the decoder accepts at least %d' % (vname, v.lo, dlo)
+            elif (dhi > v.hi and not v.rel) or (dlo < v.lo and not v.rel):
+                bad = 'the decoder accepts %s in [%d, %d] but the encoder only emits [%d, %d]: codes that are never produced ' \
+                      'are accepted' % (dname, dlo, dhi, v.lo, v.hi)
+            res.ob(bad is None, {'encoder': enc_q, 'field': vname, 'alphabet': aq, 'positions': [int(pr.lo), int(pr.hi)],
+                                 'encoder_range': repr(v), 'decoder_accepts': [dlo, dhi]})
+            if bad:
+                res.fail(enc_q, '%s@%d..%d' % (vname, pr.lo, pr.hi), f.loc(fornode),
+                         'characters %d..%d (alphabet %s): %s' % (pr.lo, pr.hi, aq.rsplit('::', 1)[-1], bad))
+    return res, nfield
